@@ -5,7 +5,7 @@
    A message struct is a *signature*: the accepted type bytes (sshtype tag of the first field,
    "a|b" = several; none for ad hoc structs) and the sequence of field kinds
 
-      byte bool u32 u64 string bytes namelist mpint arr4 arr16 rest
+      byte bool u32 u64 string bytes namelist mpint arr1 arr4 arr8 arr16 rest
 
    (string and []byte share the wire format; rest = trailing []byte with `ssh:"rest"`).
    MsgTable is the signature of every message struct declared in messages.go; it is part of the
@@ -38,7 +38,7 @@ EncField(k, v) == CASE k = "byte" -> <<v>>
                     [] k \in {"string", "bytes"} -> EncString(v)
                     [] k = "namelist" -> EncNameList(v)
                     [] k = "mpint" -> EncMpint(v)
-                    [] OTHER -> v                              \* arr4, arr16, rest: the bytes themselves
+                    [] OTHER -> v                              \* arrN, rest: the bytes themselves
 DecField(k, b) == CASE k = "byte" -> DecByte(b)
                     [] k = "bool" -> DecBool(b)
                     [] k = "u32" -> DecU32(b)
@@ -46,7 +46,9 @@ DecField(k, b) == CASE k = "byte" -> DecByte(b)
                     [] k \in {"string", "bytes"} -> DecString(b)
                     [] k = "namelist" -> DecNameList(b)
                     [] k = "mpint" -> DecMpint(b)
+                    [] k = "arr1" -> DecArray(b, 1)
                     [] k = "arr4" -> DecArray(b, 4)
+                    [] k = "arr8" -> DecArray(b, 8)
                     [] k = "arr16" -> DecArray(b, 16)
                     [] OTHER -> Ok(b, <<>>)                    \* rest
 
@@ -130,7 +132,24 @@ AdHocTable ==
     adhocMulti   |-> Sig(<<202, 203>>, <<"string">>),
     adhocMpints  |-> Sig(<<201>>, <<"mpint", "mpint", "byte">>) ]
 
-Table == MsgTable @@ AdHocTable
+(* Position-complete struct shapes: every field kind as the only, the FIRST, a MIDDLE and the LAST field
+   of a struct (the codec's per-kind code must work whatever follows or precedes the field, in particular
+   when the field consumes the input exactly).  A rest field is documented as a final member only, so it
+   appears as the only and as the last field.  The harness builds these structs with reflect.StructOf. *)
+ShapeKinds == {"byte", "bool", "u32", "u64", "string", "bytes", "namelist", "mpint", "arr1", "arr4", "arr8", "arr16", "rest"}
+ShapePos == {"only", "first", "middle", "last"}
+ShapeDefs == {d \in {[name |-> "shape_" \o p \o "_" \o k, p |-> p, k |-> k] : p \in ShapePos, k \in ShapeKinds} :
+                 ~(d.k = "rest" /\ d.p \in {"first", "middle"})}
+ShapeFields(p, k) == CASE p = "only" -> <<k>>
+                       [] p = "first" -> <<k, "u32", "string">>
+                       [] p = "middle" -> <<"byte", k, "u32">>
+                       [] OTHER -> <<"u32", k>>
+ShapeIdx(p) == IF p \in {"only", "first"} THEN 1 ELSE 2           \* where the kind under test sits
+ShapeNames == {d.name : d \in ShapeDefs}
+ShapeOf(n) == CHOOSE d \in ShapeDefs : d.name = n
+ShapeTable == [n \in ShapeNames |-> Sig(<<210>>, ShapeFields(ShapeOf(n).p, ShapeOf(n).k))]
+
+Table == MsgTable @@ AdHocTable @@ ShapeTable
 
 \* decode(): first byte -> struct
 DecodeTable ==
@@ -195,8 +214,10 @@ vars == <<c, wire, muts, out, phase>>
 KindOf(name, i) == Table[name].fields[i]
 BaseVals(name) == [i \in 1..Len(Table[name].fields) |-> Base(KindOf(name, i))]
 \* one field at a time takes every boundary value of its kind, the others stay at their base value
+\* (in a shape struct only the field under test varies)
+VaryIdx(name) == IF name \in ShapeNames THEN {ShapeIdx(ShapeOf(name).p)} ELSE 1..Len(Table[name].fields)
 CaseVals(name) == {BaseVals(name)} \cup
-                  UNION {{[BaseVals(name) EXCEPT ![i] = v] : v \in Menu(KindOf(name, i))} : i \in 1..Len(Table[name].fields)}
+                  UNION {{[BaseVals(name) EXCEPT ![i] = v] : v \in Menu(KindOf(name, i))} : i \in VaryIdx(name)}
 
 Init == /\ \E name \in Messages : \E vs \in CaseVals(name) : c = [name |-> name, sig |-> Table[name], vals |-> vs]
         /\ wire = <<>> /\ muts = <<>> /\ out = <<>> /\ phase = "init"
